@@ -21,8 +21,8 @@ def tlc_phase(tier, scratch):
 
 def params_for(tier, table):
     if tier == "quick":
-        return dict(table=table, max_len=4, random=1500, parts="AB")
-    return dict(table=table, max_len=5, random=40000, parts="AB")
+        return dict(table=table, max_len=4, random=1500, parts="ASB", str_items=2)
+    return dict(table=table, max_len=5, random=40000, parts="ASB", str_items=3)
 
 
 ROOT = {
@@ -72,9 +72,11 @@ def run(tier, scratch, record=False):
     params_rec["table"] = "<exported by TLC at run time>"
     cov = dict(
         rule="part A: every string of byte classes (33 classes, one representative byte each) of length 0..%d, exhaustive; "
-             "part B: %d automaton-generated valid texts, each with every single-byte deletion and a random insertion and "
+             "part S: string literals of up to %d items from a 19-item catalogue (simple escapes, \\u escapes of every class incl. "
+             "surrogates and pairs, multi-byte UTF-8) as value, object key and array element, each with every single-byte substitution "
+             "(11 bytes), deletion and truncation; part B: %d automaton-generated valid texts, each with every single-byte deletion and a random insertion and "
              "substitution at every position; a part-A string is non-trivial when the reference does not reject before its "
-             "last byte (viable prefix); each string is offered to %s" % (params["max_len"], params["random"], "Valid and to Unmarshal/Decode with 21 destinations"),
+             "last byte (viable prefix); each string is offered to %s" % (params["max_len"], params["str_items"], params["random"], "Valid and to Unmarshal/Decode with 21 destinations"),
         exhaustive=True,
         traces_validated_against_impl=0,
     )
